@@ -17,11 +17,13 @@ ORACLE (written from the statement of C17 and the docstrings, never from factory
  * the registered names are read from `fl.settings.factory_manager.function` ONLY to check that all of them are covered
    (`undocumented-element`) and (replay_table) to compare the registered precedence/associativity/arity with the table.
 Operands are kept in tame domains (`_Dom` rejects a valuation: zero divisors, negative bases with inexact exponents,
-arguments next to a discontinuity of floor/ceil/round/%/relational functions unless exact, |values| > 1e6), the
+arguments next to a discontinuity of floor/ceil/round/%/relational functions unless exact, |values| > 1e6); the
 tolerance is 1e-9 relative plus 1e-12 of the largest intermediate magnitude.
 Surface syntax (from Function.format_infix / infix_to_postfix docstrings and tests): every operator except `and`/`or`
 is self-delimiting (spaces optional), unary minus/plus are spelled `.-` `.+` (a bare `-x` is documented as unsupported),
 calls are `f(a, b)`, the constant is `pi` or `pi()`, literals are non-negative decimal numbers.
+Postfix: the package has no public postfix reader; the postfix->tree half of `Function.parse` is run on `root.postfix()`
+through a subclass whose `infix_to_postfix` is the identity (no global touched); the harness' own postfix reader checks the text.
 """
 import math
 import random
@@ -39,51 +41,41 @@ POOL = [2.0, 3.0, 0.5, 1.5, 4.0, 0.25, 5.0, -2.0, -1.5, 1.0, 0.0, 7.0, -3.0, 2.5
 LITS = [("2", 2.0), ("3", 3.0), ("0.5", 0.5), ("1.5", 1.5), ("4.0", 4.0), ("0.25", 0.25), ("1", 1.0), ("0", 0.0),
         ("10", 10.0), ("2.50", 2.5), ("0.125", 0.125), ("7", 7.0), ("1.000", 1.0), ("6", 6.0)]
 REJECTIONS = ("SyntaxError", "ValueError")
+TAME = {"acos", "asin", "atanh", "acosh", "log", "log10", "sqrt", "exp", "sinh", "cosh", "tan", "log1p"}
 
 
-class _Dom(Exception):
-    """the valuation leaves the tame domain (not a failure: another valuation is tried)"""
+class _Dom(Exception): pass     # noqa: the valuation leaves the tame domain (not a failure: another valuation is tried)
+class _Ill(Exception): pass     # noqa: the reference parser refuses the text
+class _Fail(Exception): pass    # noqa: carries the result dict of the first failing case
 
+def _try(fn, *args):
+    """(result, None) or (None, 'Type: message')"""
+    try:
+        return fn(*args), None
+    except Exception as ex:  # noqa
+        return None, "%s: %s" % (type(ex).__name__, ex)
 
-class _Ill(Exception):
-    """the reference parser refuses the text"""
-
-
-class _Fail(Exception):
-    pass
-
-
-# ------------------------------------------------------------------ reference meaning
+# ------------------------------------------------------------------ reference meaning: f(values..., exact flags...) -> (value, exact)
 def _need(c):
     if not c:
         raise _Dom
 
-
 def _u1(fn, dom=None):
-    def f(a, ea):
-        if dom:
-            _need(dom(a))
-        return fn(a), False
-    return f
+    return lambda a, ea: (_need(dom is None or dom(a)), (fn(a), False))[1]
 
-
-def _step(fn, half):            # floor / ceil / round: piecewise constant, exact arguments only next to a jump
+def _step(fn, half):            # floor / ceil / round: piecewise constant, only exact arguments next to a jump
     def f(a, ea):
-        d = abs(a + (0.5 if half else 0.0) - round(a + (0.5 if half else 0.0)))
-        _need(ea or d > 1e-6)
+        s = a + (0.5 if half else 0.0)
+        _need(ea or abs(s - round(s)) > 1e-6)
         return float(fn(a)), ea
     return f
 
-
 def _pow(a, b, ea, eb):
-    _need(1e-3 <= abs(a) <= 1e3 and abs(b) <= 8)
-    if a < 0:
-        _need(eb and float(b).is_integer())
+    _need(1e-3 <= abs(a) <= 1e3 and abs(b) <= 8 and (a > 0 or (eb and float(b).is_integer())))
     try:
         return math.pow(a, b), False
     except (OverflowError, ValueError):
         raise _Dom
-
 
 def _rem(fn):
     def f(a, b, ea, eb):
@@ -93,30 +85,22 @@ def _rem(fn):
         return fn(a, b), False
     return f
 
-
-def _rel(name):
-    def f(a, b, ea, eb):
-        _need((ea and eb) or abs(a - b) > 1e-6 * max(1.0, abs(a), abs(b)))
-        return (1.0 if REL[name](a, b) else 0.0), True
-    return f
-
+def _rel(name):                 # exact operands, or operands well apart
+    return lambda a, b, ea, eb: (_need((ea and eb) or abs(a - b) > 1e-6 * max(1.0, abs(a), abs(b))), ((1.0 if REL[name](a, b) else 0.0), True))[1]
 
 def _atan2(a, b, ea, eb):
-    _need(abs(a) > 1e-6 or (ea and (b > 1e-6 or eb)))
-    _need(not (a == 0 and b == 0))
+    _need((abs(a) > 1e-6 or (ea and (b > 1e-6 or eb))) and not (a == 0 and b == 0))
     return math.atan2(a, b), False
 
-
-def _dy(fn):                    # + - * keep "exact" for small dyadic values
+def _dy(fn):                    # + - * stay "exact" on small dyadic values
     def f(a, b, ea, eb):
         r = fn(a, b)
         return r, bool(ea and eb and abs(r) < 1e6 and float(r * 1024).is_integer())
     return f
 
-
 BINF = {"+": _dy(lambda a, b: a + b), "-": _dy(lambda a, b: a - b), "*": _dy(lambda a, b: a * b),
-        "/": lambda a, b, ea, eb: (_need(abs(b) >= 1e-3), (a / b, False))[1], "%": _rem(lambda a, b: a % b),
-        "^": _pow, "**": _pow}
+        "/": lambda a, b, ea, eb: (_need(abs(b) >= 1e-3), (a / b, False))[1],
+        "%": _rem(lambda a, b: a % b), "^": _pow, "**": _pow}
 FUNCS = {
     "pi": (0, lambda: (math.pi, True)),
     "acos": (1, _u1(math.acos, lambda a: abs(a) <= 0.99)), "asin": (1, _u1(math.asin, lambda a: abs(a) <= 0.99)),
@@ -132,24 +116,19 @@ FUNCS = {
     "pow": (2, _pow), "atan2": (2, _atan2), "fmod": (2, _rem(math.fmod)),
     "min": (2, lambda a, b, ea, eb: (a, ea) if a <= b else (b, eb)), "max": (2, lambda a, b, ea, eb: (a, ea) if a >= b else (b, eb)),
 }
-for _n in REL:
-    FUNCS[_n] = (2, _rel(_n))
+FUNCS.update({_n: (2, _rel(_n)) for _n in REL})
+ARITY = {n: a for n, (a, _) in FUNCS.items()}
 
 
-def _truth(v, ex):
-    if isinstance(v, bool):
-        return v
-    _need(ex or abs(v) > 1e-6)
-    return v != 0.0
-
+def _truth(v, ex):              # nonzero = true; an inexact value next to zero is not used as a truth value
+    return v if isinstance(v, bool) else (_need(ex or abs(v) > 1e-6), v != 0.0)[1]
 
 def ev(t, env, st):
-    """reference value of a tree: (value, exact); value is a float, or a bool for results of ! and or"""
+    """reference value of a tree: (value, exact); a float, or a bool for results of ! and or.  Trees are tuples:
+    ('n', value, spelling) | ('v', name) | ('u', op, child) | ('b', op, left, right) | ('c', function, (args...)[, spell `pi()`])"""
     k = t[0]
-    if k == "n":
-        return t[1], True
-    if k == "v":
-        return float(env[t[1]]), True
+    if k in "nv":
+        return (t[1] if k == "n" else float(env[t[1]])), True
     if k == "u":
         v, ex = ev(t[2], env, st)
         if t[1] == "!":
@@ -169,50 +148,45 @@ def ev(t, env, st):
     st[0] = max(st[0], abs(r[0]))
     return r
 
+def expected(tree, env):
+    st = [0.0]
+    return ev(tree, env, st)[0], st[0]      # (reference value, largest intermediate magnitude)
+
+def value(tree, env):
+    """the reference value, or None when the valuation leaves the tame domain"""
+    try:
+        return expected(tree, env)[0]
+    except _Dom:
+        return None
 
 def kids(t):
     return () if t[0] in "nv" else ((t[2],) if t[0] == "u" else ((t[2], t[3]) if t[0] == "b" else tuple(t[2])))
+def is_bool(t): return t[0] in "ub" and t[1] in LOGICAL                                                       # noqa
+def welltyped(t): return all(welltyped(c) for c in kids(t)) and (is_bool(t) or not any(is_bool(c) for c in kids(t)))  # noqa
+def norm(t): return rebuild(t, lambda l: ("n", float(l[1])) if l[0] == "n" else l)                            # noqa
+def shape(t): return "." if t[0] in "nv" else (t[1],) + tuple(shape(c) for c in kids(t))                      # noqa
+def height(t): return 1 + max([height(c) for c in kids(t)] or [0])                                            # noqa
+def level(t): return UN[t[1]] if t[0] == "u" else (BIN[t[1]][0] if t[0] == "b" else 9)                        # noqa
+def V(n): return ("v", n)                                                                                     # noqa
+def _mk(op, *ks): return ("u", op, ks[0]) if op in UN else ("b", op, ks[0], ks[1])                            # noqa
+def _word(ch): return ch.isalnum() or ch == "_"                                                               # noqa
 
-def is_bool(t):
-    return t[0] in "ub" and t[1] in LOGICAL
-
-def welltyped(t):
-    return all(welltyped(c) for c in kids(t)) and (is_bool(t) or not any(is_bool(c) for c in kids(t)))
-
-def rebuild(t, f):
-    """the tree with f applied to every leaf"""
+def rebuild(t, leaf):
     if t[0] in "nv":
-        return f(t)
-    ks = [rebuild(c, f) for c in kids(t)]
-    return (t[0], t[1]) + (tuple(ks) if t[0] != "c" else (tuple(ks),) + t[3:])
-
-def norm(t):
-    return rebuild(t, lambda l: ("n", float(l[1])) if l[0] == "n" else l)[:3 if t[0] == "c" else 4] if t[0] not in "nv" else (("n", float(t[1])) if t[0] == "n" else t)
-
-def shape(t):
-    return "." if t[0] in "nv" else (t[1],) + tuple(shape(c) for c in kids(t))
+        return leaf(t)
+    ks = tuple(rebuild(c, leaf) for c in kids(t))
+    return (t[0], t[1]) + (ks if t[0] != "c" else (ks,))
 
 def used(t, vs, es):
-    if t[0] == "v":
-        vs.add(t[1])
-    elif t[0] != "n":
-        es.add(t[1])
-        for c in kids(t):
-            used(c, vs, es)
+    (vs if t[0] == "v" else es).update([t[1]] if t[0] != "n" else [])
+    for c in kids(t):
+        used(c, vs, es)
     return vs, es
 
-def height(t):
-    return 1 + max([height(c) for c in kids(t)] or [0])
-
-
 # ------------------------------------------------------------------ printer (tokens) and spacing
-def level(t):
-    return UN[t[1]] if t[0] == "u" else (BIN[t[1]][0] if t[0] == "b" else 9)
-
-
 def toks(t, style, rng):
-    """style: 'min' minimal parentheses by the table, 'full' every operator application parenthesised, 'red' minimal plus
-    random redundant ones"""
+    """'min': the parentheses the table requires; 'full': every operator application parenthesised; 'red': minimal plus random
+    redundant ones"""
     def sub(c, need):
         s = toks(c, style, rng)
         if need or (style == "full" and c[0] in "ub"):
@@ -221,10 +195,8 @@ def toks(t, style, rng):
             s = ["("] + s + [")"]
         return s
     k = t[0]
-    if k == "n":
-        return [t[2]]
-    if k == "v":
-        return [t[1]]
+    if k in "nv":
+        return [t[2] if k == "n" else t[1]]
     if k == "c":
         if not t[2]:
             return [t[1], "(", ")"] if (len(t) > 3 and t[3]) else [t[1]]
@@ -238,12 +210,8 @@ def toks(t, style, rng):
     l, r = level(t[2]), level(t[3])
     return sub(t[2], l < lv or (l == lv and asc == "R")) + [t[1]] + sub(t[3], r < lv or (r == lv and asc == "L"))
 
-
-def _word(ch):
-    return ch.isalnum() or ch == "_"
-
-
 def join(tk, mode, rng):
+    """'single' one space; 'compact' no space except between two words; 'random' 0-3 blanks/tabs anywhere between tokens"""
     if mode == "single":
         return " ".join(tk)
     out = []
@@ -253,24 +221,18 @@ def join(tk, mode, rng):
         out.append(((sp or " ") if need else (sp if i else "")) + t)
     return "".join(out) if mode == "compact" else rng.choice(["", " ", "  "]) + "".join(out) + rng.choice(["", " ", "\t "])
 
-
 # ------------------------------------------------------------------ reference parser (precedence climbing from the table)
 _TOK = re.compile(r"\s*(\*\*|\.-|\.\+|[-+*/%^!~(),]|[A-Za-z_]\w*|\d+\.?\d*(?:[eE]\d+)?|\.\d+)")
 
-
-def _ref_parse(text, arity):
-    tk, pos = [], 0
-    text = text.rstrip()
+def _ref_parse(text):
+    tk, pos, text, p = [], 0, text.rstrip(), [0]
     while pos < len(text):
         m = _TOK.match(text, pos)
         if not m:
             raise _Ill("token at %d" % pos)
         tk.append(m.group(1))
         pos = m.end()
-    p = [0]
-
-    def peek():
-        return tk[p[0]] if p[0] < len(tk) else None
+    peek = lambda: tk[p[0]] if p[0] < len(tk) else None  # noqa
 
     def eat(x=None):
         t = peek()
@@ -289,23 +251,17 @@ def _ref_parse(text, arity):
             return ("n", float(t))
         if not _word(t[0]) or t in BIN:
             raise _Ill("operand expected, found %r" % t)
-        if t in arity:
-            args = []
-            if arity[t] == 0:
-                if peek() == "(":
-                    eat("(")
-                    eat(")")
-                return ("c", t, ())
+        if t not in ARITY:
+            return ("v", t)
+        args = []
+        if ARITY[t] > 0 or peek() == "(":
             eat("(")
-            args.append(expr(0))
-            while peek() == ",":
-                eat(",")
-                args.append(expr(0))
+            while ARITY[t] > 0 and (not args or peek() == ","):
+                args.append(expr(0) if not args or eat(",") else None)
             eat(")")
-            if len(args) != arity[t]:
-                raise _Ill("arity of %s" % t)
-            return ("c", t, tuple(args))
-        return ("v", t)
+        if len(args) != ARITY[t]:
+            raise _Ill("arity of %s" % t)
+        return ("c", t, tuple(args))
 
     def expr(minlv):
         t = peek()
@@ -315,9 +271,8 @@ def _ref_parse(text, arity):
         else:
             left = atom()
         while peek() in BIN and BIN[peek()][0] >= minlv:
-            op = eat()
-            lv, asc = BIN[op]
-            left = ("b", op, left, expr(lv + 1 if asc == "L" else lv))
+            lv, asc = BIN[peek()]
+            left = ("b", eat(), left, expr(lv + 1 if asc == "L" else lv))
         return left
 
     e = expr(0)
@@ -325,8 +280,9 @@ def _ref_parse(text, arity):
         raise _Ill("trailing %r" % peek())
     return e
 
+def _refuses(text): return (_try(_ref_parse, text)[1] or "").startswith("_Ill:")   # noqa
 
-def _from_postfix(text, arity):
+def _from_postfix(text):
     st = []
     for t in text.split():
         if t in UN:
@@ -334,18 +290,13 @@ def _from_postfix(text, arity):
         elif t in BIN:
             r = st.pop()
             st.append(("b", t, st.pop(), r))
-        elif t in arity:
-            args = [st.pop() for _ in range(arity[t])][::-1]
-            st.append(("c", t, tuple(args)))
+        elif t in ARITY:
+            st.append(("c", t, tuple([st.pop() for _ in range(ARITY[t])][::-1])))
         else:
-            try:
-                st.append(("n", float(t)))
-            except ValueError:
-                st.append(("v", t))
+            st.append(("v", t) if _try(float, t)[1] else ("n", float(t)))
     if len(st) != 1:
         raise IndexError("postfix leaves %d trees" % len(st))
     return st[0]
-
 
 # ------------------------------------------------------------------ ill-formed variants (token level)
 def _match(tk, i):
@@ -354,52 +305,34 @@ def _match(tk, i):
         d += (tk[j] == "(") - (tk[j] == ")")
         if d == 0:
             return j
-    return None
 
-
-def illformed(tk, arity, rng):
-    """(kind, tokens) variants of a well-formed token list; kinds named in the quantifier of C17"""
-    out = []
+def illformed(tk, rng):
+    """(kind, tokens) variants of a well-formed token list; the kinds named in the quantifier of C17"""
     opnd = [i for i, t in enumerate(tk) if t not in UN and t not in BIN and t not in "(),"
-            and (t not in arity or (arity[t] == 0 and (i + 1 == len(tk) or tk[i + 1] != "(")))]
+            and (t not in ARITY or (ARITY[t] == 0 and (i + 1 == len(tk) or tk[i + 1] != "(")))]
     bins = [i for i, t in enumerate(tk) if t in BIN]
-    calls = [i for i, t in enumerate(tk) if t in arity and arity[t] > 0]
+    calls = [i for i, t in enumerate(tk) if t in ARITY and ARITY[t] > 0]
     par = [i for i, t in enumerate(tk) if t in "()"]
-    anybin = rng.choice(sorted(BIN))
-    if opnd:
-        i = rng.choice(opnd)
-        out.append(("missing-operand", tk[:i] + tk[i + 1:]))
-    if bins:
-        i = rng.choice(bins)
-        out.append(("missing-operator", tk[:i] + tk[i + 1:]))
-        i = rng.choice(bins)
-        out.append(("duplicate-operator", tk[:i] + [tk[i]] + tk[i:]))
-    out.append(("trailing-operator", tk + [anybin]))
-    out.append(("leading-operator", [anybin] + tk))
-    if par:
-        i = rng.choice(par)
-        out.append(("unbalanced", tk[:i] + tk[i + 1:]))
+    anybin, pick = rng.choice(sorted(BIN)), (lambda xs: [rng.choice(xs)] if xs else [])
+    out = [("missing-operand", tk[:i] + tk[i + 1:]) for i in pick(opnd)] + [("missing-operator", tk[:i] + tk[i + 1:]) for i in pick(bins)]
+    out += [("duplicate-operator", tk[:i] + [tk[i]] + tk[i:]) for i in pick(bins)] + [("unbalanced", tk[:i] + tk[i + 1:]) for i in pick(par)]
+    out += [("trailing-operator", tk + [anybin]), ("leading-operator", [anybin] + tk)]
     out.append(("unbalanced", rng.choice([["("] + tk, tk + [")"], tk + ["("], [")"] + tk])))
     if calls:
         i = rng.choice(calls)
         j = _match(tk, i + 1)
-        commas = [c for c in range(i + 2, j) if tk[c] == "," and _match(tk, i + 1) == j and
-                  sum((x == "(") - (x == ")") for x in tk[i + 2:c]) == 0]
+        commas = [c for c in range(i + 2, j) if tk[c] == "," and sum((x == "(") - (x == ")") for x in tk[i + 2:c]) == 0]
         out.append(("wrong-arity", tk[:j] + [",", "x"] + tk[j:]))
         if commas:
-            out.append(("wrong-arity", tk[:commas[0]] + tk[j:]))
-            out.append(("empty-argument", tk[:commas[0] + 1] + tk[j:]))
-            out.append(("empty-argument", tk[:i + 2] + tk[commas[0]:]))
+            out += [("wrong-arity", tk[:commas[0]] + tk[j:]), ("empty-argument", tk[:commas[0] + 1] + tk[j:]),
+                    ("empty-argument", tk[:i + 2] + tk[commas[0]:])]
         else:
             out.append(("empty-argument", tk[:i + 2] + tk[j:]))
     else:
-        f = rng.choice(sorted(arity))
-        n = arity[f]
-        extra = rng.choice([k for k in (n - 1, n + 1) if k >= 1]) if n != 1 else 2
-        out.append(("wrong-arity", [f, "("] + tk + [",", "x"] * (extra - 1) + [")"]))
-        out.append(("empty-argument", ["max", "("] + tk + [",", ")"]))
+        f = rng.choice(sorted(ARITY))
+        extra = 2 if ARITY[f] == 1 else rng.choice([k for k in (ARITY[f] - 1, ARITY[f] + 1) if k >= 1])
+        out += [("wrong-arity", [f, "("] + tk + [",", "x"] * (extra - 1) + [")"]), ("empty-argument", ["max", "("] + tk + [",", ")"])]
     return out
-
 
 # ------------------------------------------------------------------ the run context
 class _Run:
@@ -408,109 +341,86 @@ class _Run:
         self.fl, self.np, self.rng = fl, np, random.Random(seed)
         self.arrays, self.skip, self.only = arrays, set(skip or ()), only
         self.cases, self.distinct, self.skipped, self.ignored = 0, set(), {}, {}
-        self.bad, self.rejections = {}, {}
-        reg = fl.settings.factory_manager.function.objects
-        self.reg = {n: e for n, e in reg.items()}
-        self.arity = {n: a for n, (a, _) in FUNCS.items()}
+        self.bad, self.rejections, self.n_good = {}, {}, 0
+        self.reg = dict(fl.settings.factory_manager.function.objects)
         self.engine = fl.Engine("e", input_variables=[fl.InputVariable(n) for n in ENG_IN],
                                 output_variables=[fl.OutputVariable(n) for n in ENG_OUT])
         self.PF = type("PostfixFunction", (fl.Function,), {"infix_to_postfix": classmethod(lambda cls, formula: formula)})
 
     def fail(self, cls, expected, observed, call, elems=()):
-        for n in sorted(elems):
-            if n in self.bad:
-                cls = self.bad[n]
-                break
+        """a failing case: attributed to an element already known to be defective if the tree contains one; skipped classes are
+        counted, anything else ends the run"""
+        cls = next((self.bad[n] for n in sorted(elems) if n in self.bad), cls)
         if cls in self.skip:
             self.skipped[cls] = self.skipped.get(cls, 0) + 1
-            return
-        if self.only and cls != self.only:
+        elif self.only and cls != self.only:
             self.ignored[cls] = self.ignored.get(cls, 0) + 1
-            return
-        raise _Fail({"failed": True, "class": cls, "expected": str(expected)[:590], "observed": str(observed)[:590],
-                     "call": str(call)[:1200], "cases": self.cases})
+        else:
+            raise _Fail({"failed": True, "class": cls, "expected": str(expected)[:590], "observed": str(observed)[:590],
+                         "call": str(call)[:598], "cases": self.cases})
 
     def lit(self, v):
         return repr(float(v)) if self.np.ndim(v) == 0 else "np.array(%s)" % [float(z) for z in v]
 
-    def snippet(self, text, env, vs, how="membership"):
+    def snippet(self, text, env, vs, how=None):
         s = ["import numpy as np, fuzzylite as fl"]
         eng = [n for n in ENG_IN + ENG_OUT if n in vs]
-        own = {n: env[n] for n in OWN if n in vs}
+        own = ", ".join("%r: %s" % (n, self.lit(env[n])) for n in OWN if n in vs)
         if eng:
             s.append("e = fl.Engine('e', input_variables=[%s], output_variables=[%s])" % (
                 ", ".join("fl.InputVariable(%r)" % n for n in ENG_IN if n in vs), ", ".join("fl.OutputVariable(%r)" % n for n in ENG_OUT if n in vs)))
             s += ["e.variable(%r).value = %s" % (n, self.lit(env[n])) for n in eng]
-        s.append("t = fl.Function('f', %r%s%s, load=True)" % (text, ", engine=e" if eng else "",
-                                                            (", variables={%s}" % ", ".join("%r: %s" % (n, self.lit(v)) for n, v in own.items())) if own else ""))
-        if how == "membership":
-            s.append("print(t.membership(%s))" % self.lit(env["x"]))
-        else:
-            s.append("print(%s)" % how)
+        s.append("t = fl.Function('f', %r%s%s, load=True)" % (text, ", engine=e" if eng else "", (", variables={%s}" % own) if own else ""))
+        s.append("print(%s)" % (how or "t.membership(%s)" % self.lit(env["x"])))
         return "; ".join(s)
 
-    def setenv(self, term, env):
+    def observe(self, term, env, how):
         for n in ENG_IN + ENG_OUT:
             self.engine.variable(n).value = env[n]
         term.variables = {n: env[n] for n in OWN}
+        return term.membership(env["x"]) if how == "membership" else term.evaluate(dict(env))
 
     def close(self, obs, exp, m):
-        if isinstance(exp, bool):
-            return bool(obs) == exp
-        o = float(obs)
-        return abs(o - exp) <= 1e-9 * abs(exp) + 1e-12 * max(m, 1.0)
+        return (bool(obs) == exp) if isinstance(exp, bool) else abs(float(obs) - exp) <= 1e-9 * abs(exp) + 1e-12 * max(m, 1.0)
 
-    def expected(self, tree, env):
-        st = [0.0]
-        v, _ = ev(tree, env, st)
-        return v, st[0]
-
-    def find_envs(self, trees, alt=None, want=5, tries=400, fixed=None):
-        """valuations on which all `trees` stay in the tame domain, preferring those where trees[0] and alt differ"""
+    def find_envs(self, tree, alt=None, want=5, tries=400, fixed=None):
+        """valuations on which `tree` stays in the tame domain, first those on which it differs from the other reading `alt`"""
         good, plain, seen = [], [], set()
         for it in range(tries):
-            env = {n: self.rng.choice(POOL) for n in NAMES}
-            env.update(fixed or {})
+            env = dict({n: self.rng.choice(POOL) for n in NAMES}, **(fixed or {}))
             key = tuple(env[n] for n in NAMES)
             if key in seen:
                 continue
             seen.add(key)
-            try:
-                vals = [self.expected(t, env)[0] for t in trees]
-            except _Dom:
+            v, w = value(tree, env), (None if alt is None else value(alt, env))
+            if v is None:
                 continue
-            disc = alt is None
-            if alt is not None:
-                try:
-                    w, v = self.expected(alt, env)[0], vals[0]
-                    disc = (w != v) if isinstance(v, bool) or isinstance(w, bool) else abs(w - v) > 1e-3 * max(1.0, abs(v), abs(w))
-                except _Dom:
-                    disc = False
+            disc = alt is None or (w is not None and ((w != v) if isinstance(v, bool) or isinstance(w, bool) else abs(w - v) > 1e-3 * max(1.0, abs(v), abs(w))))
             (good if disc else plain).append(env)
             if len(good) >= want or (it > 150 and len(good) + len(plain) >= want):
                 break
+        self.n_good = len(good)
         return (good + plain)[:want]
 
-    # -------------------------------------------------------------- one well-formed tree against the library
     def check_tree(self, tree, envs, cls, acls=None, styles=("min", "full", "red"), do_ill=True, postfix=True):
-        np, fl, rng = self.np, self.fl, self.rng
+        """one well-formed tree: every parenthesis style x spacing variants, loaded and evaluated by the real term"""
+        rng = self.rng
         vs, es = used(tree, set(), set())
-        exp = [self.expected(tree, e) for e in envs]
+        exp = [expected(tree, e) for e in envs]
         self.distinct.add(shape(tree))
         first = True
         for style in styles:
             tk = toks(tree, style, rng)
             for mode in (("single", rng.choice(["compact", "random"])) if first else (rng.choice(["single", "compact", "random"]),)):
                 text = join(tk, mode, rng)
-                back = _ref_parse(text, self.arity)          # harness self-check (printer vs reference parser)
+                back = _ref_parse(text)                         # harness self-check (printer vs reference parser)
                 assert norm(back) == norm(tree), ("printer/reference parser disagree", text, back, tree)
                 self.cases += 1
                 prob = self.run_text(text, tree, envs, exp, vs, cls, acls, postfix and first)
                 if prob and mode != "single" and not self.run_text(" ".join(tk), tree, envs, exp, vs, cls, acls, False):
-                    prob = ("spacing:" + mode,) + prob[1:]
+                    prob = ("spacing:" + mode,) + prob[1:]      # the same tokens one space apart are fine
                 if prob:
-                    self.fail(prob[0], prob[1], prob[2], prob[3], es)
-                    return
+                    return self.fail(prob[0], prob[1], prob[2], prob[3], es)
                 first = False
         if do_ill:
             self.check_ill(toks(tree, rng.choice(["min", "full"]), rng))
@@ -518,103 +428,66 @@ class _Run:
     def run_text(self, text, tree, envs, exp, vs, cls, acls, postfix):
         """returns None, or (class, expected, observed, call)"""
         np, fl = self.np, self.fl
-        own0 = {n: envs[0][n] for n in OWN}
-        try:
-            if self.rng.random() < 0.5:
-                term = fl.Function("f", text, engine=self.engine, variables=own0, load=True)
-            else:
-                term = fl.Function.create("f", text, self.engine)
-        except Exception as ex:  # noqa
-            return ("crash:%s@load" % type(ex).__name__, "formula loads (well-formed: reference tree %s)" % (norm(tree),),
-                    "%s: %s" % (type(ex).__name__, ex), "import fuzzylite as fl; fl.Function.create('f', %r)" % text)
-        for i, env in enumerate(envs[:3]):
+        acls = acls or "not-elementwise:" + cls.split(":", 1)[-1]
+        if self.rng.random() < 0.5:
+            term, err = _try(lambda: fl.Function("f", text, engine=self.engine, variables={n: envs[0][n] for n in OWN}, load=True))
+        else:
+            term, err = _try(fl.Function.create, "f", text, self.engine)
+        if err:
+            return ("crash:%s@load" % err.split(":")[0], "formula loads (well-formed: reference tree %s)" % (norm(tree),), err,
+                    "import fuzzylite as fl; fl.Function.create('f', %r)" % text)
+        for i, env in enumerate(envs[:3]):                      # the SAME loaded term under changing engine/own values
             want, m = exp[i]
             for how in ("membership", "evaluate"):
-                try:
-                    self.setenv(term, env)
-                    obs = term.membership(env["x"]) if how == "membership" else term.evaluate(dict(env))
-                except Exception as ex:  # noqa
-                    return (cls if cls.startswith(("value:function:", "indicator-")) else "crash:%s@%s" % (type(ex).__name__, how), want, "%s: %s" % (type(ex).__name__, ex), self.snippet(text, env, vs))
+                obs, err = _try(self.observe, term, env, how)
+                if err:
+                    return (cls if cls.startswith(("value:function:", "indicator-")) else "crash:%s@%s" % (err.split(":")[0], how), want, err, self.snippet(text, env, vs))
                 if np.ndim(obs) != 0 or not self.close(obs, want, m):
                     return (cls, want, repr(obs), self.snippet(text, env, vs))
         if postfix:
             env, (want, m) = envs[0], exp[0]
-            try:
-                pf = term.root.postfix()
-                back = _from_postfix(pf, self.arity)
-            except Exception as ex:  # noqa
-                return ("postfix:text", "postfix of the loaded tree", "%s: %s" % (type(ex).__name__, ex), self.snippet(text, env, vs, "t.root.postfix()"))
-            if norm(back) != norm(tree):
-                return ("postfix:text", "postfix print of %s" % (norm(tree),), pf, self.snippet(text, env, vs, "t.root.postfix()"))
-            try:
-                obs = self.PF.parse(pf).evaluate(dict(env))
-            except Exception as ex:  # noqa
-                obs = "%s: %s" % (type(ex).__name__, ex)
-            if isinstance(obs, str) or np.ndim(obs) != 0 or not self.close(obs, want, m):
-                return ("postfix:reparse", want, obs, self.snippet(text, env, vs, "t.root.postfix()") +
-                        "  # then the postfix->tree half of Function.parse on that text (subclass with infix_to_postfix = identity), evaluate")
+            call = self.snippet(text, env, vs, "t.root.postfix()")
+            pf, err = _try(lambda: term.root.postfix())
+            back = None if err else _try(lambda: norm(_from_postfix(pf)))[0]
+            if back != norm(tree):
+                return ("postfix:text", "postfix print of %s" % (norm(tree),), err or pf, call)
+            obs, err = _try(lambda: self.PF.parse(pf).evaluate(dict(env)))
+            if err or np.ndim(obs) != 0 or not self.close(obs, want, m):
+                return ("postfix:reparse", want, err or obs, call + "  # then the postfix->tree half of Function.parse on that text, evaluated")
         if self.arrays and envs:
-            sets = []
             es4 = [envs[i % len(envs)] for i in range(max(4, len(envs)))][:5]
-            sets.append(({n: np.array([e[n] for e in es4]) for n in NAMES}, es4, set(NAMES)))
-            if "x" in vs and self.rng.random() < 0.5:                 # only x is an array
-                xs = []
-                for xv in POOL:
-                    try:
-                        self.expected(tree, dict(envs[0], x=xv))
-                        xs.append(xv)
-                    except _Dom:
-                        pass
+            sets = [({n: np.array([e[n] for e in es4]) for n in NAMES}, es4, set(NAMES))]
+            if "x" in vs and self.rng.random() < 0.5:           # only x is an array
+                xs = [xv for xv in POOL if value(tree, dict(envs[0], x=xv)) is not None]
                 xs = [xs[i % len(xs)] for i in range(max(4, min(5, len(xs))))]
-                es5 = [dict(envs[0], x=xv) for xv in xs]
-                sets.append((dict(envs[0], x=np.array(xs)), es5, {"x"}))
+                sets.append((dict(envs[0], x=np.array(xs)), [dict(envs[0], x=xv) for xv in xs], {"x"}))
             for aenv, elems, arrs in sets:
-                wants = [self.expected(tree, e) for e in elems]
+                wants = [expected(tree, e) for e in elems]
                 isarr = bool(vs & arrs)
                 for how in ("membership", "evaluate"):
-                    call = self.snippet(text, aenv, vs)
-                    try:
-                        self.setenv(term, aenv)
-                        obs = term.membership(aenv["x"]) if how == "membership" else term.evaluate(dict(aenv))
-                    except Exception as ex:  # noqa
-                        return (acls or "not-elementwise:" + cls.split(":", 1)[-1], [w for w, _ in wants], "%s: %s" % (type(ex).__name__, ex), call)
-                    ok = (np.shape(obs) == (len(elems),)) if isarr else (np.ndim(obs) == 0)
-                    if ok:
-                        ok = all(self.close(o, w, m) for o, (w, m) in zip(np.atleast_1d(obs), wants if isarr else wants[:1]))
-                    if not ok:
-                        return (acls or "not-elementwise:" + cls.split(":", 1)[-1], [w for w, _ in wants] if isarr else wants[0][0], repr(obs), call)
+                    obs, err = _try(self.observe, term, aenv, how)
+                    ok = not err and ((np.shape(obs) == (len(elems),)) if isarr else (np.ndim(obs) == 0))
+                    if not (ok and all(self.close(o, w, m) for o, (w, m) in zip(np.atleast_1d(obs), wants if isarr else wants[:1]))):
+                        return (acls, [w for w, _ in wants] if isarr else wants[0][0], err or repr(obs), self.snippet(text, aenv, vs))
         return None
 
     def check_ill(self, tk, limit=4, variants=None):
-        vs = variants if variants is not None else illformed(tk, self.arity, self.rng)
-        if variants is None and len(vs) > limit:
-            vs = self.rng.sample(vs, limit)
-        for kind, v in vs:
+        vs = variants if variants is not None else illformed(tk, self.rng)
+        for kind, v in (vs if variants is not None or len(vs) <= limit else self.rng.sample(vs, limit)):
             text = " ".join(v)
-            try:
-                _ref_parse(text, self.arity)
-                assert variants is not None, ("variant is well-formed for the reference parser", kind, text)
-                continue
-            except _Ill:
-                pass
+            assert _refuses(text), ("variant is well-formed for the reference parser", kind, text)
             self.cases += 1
             call = "import fuzzylite as fl; fl.Function.create('f', %r)" % text
-            try:
-                t = self.fl.Function.create("f", text, self.engine)
-            except Exception as ex:  # noqa
-                name = type(ex).__name__
-                self.rejections[name] = self.rejections.get(name, 0) + 1
-                if name not in REJECTIONS:
-                    self.fail("illformed-internal-error:" + name, "rejected with SyntaxError (or ValueError): ill-formed (%s)" % kind, "%s: %s" % (name, ex), call)
+            t, err = _try(self.fl.Function.create, "f", text, self.engine)
+            if not err:
+                self.fail("accepted-illformed:" + kind, "rejected when loaded: ill-formed (%s)" % kind, "loaded, postfix %r" % t.root.postfix(), call)
                 continue
-            self.fail("accepted-illformed:" + kind, "rejected when loaded: ill-formed (%s)" % kind, "loaded, postfix %r" % t.root.postfix(), call)
-
+            name = err.split(":")[0]
+            self.rejections[name] = self.rejections.get(name, 0) + 1
+            if name not in REJECTIONS:
+                self.fail("illformed-internal-error:" + name, "SyntaxError (or ValueError): ill-formed (%s)" % kind, err, call)
 
 # ------------------------------------------------------------------ generators
-def V(n):
-    return ("v", n)
-
-
 def _leafs(rng, n, allow_lit=True):
     names = rng.sample(list(NAMES), 3)
     out = [V(names[i % 3]) for i in range(n)]
@@ -623,33 +496,18 @@ def _leafs(rng, n, allow_lit=True):
         out[rng.randrange(n)] = ("n", v, s)
     return out
 
-
 def _delit(t):
-    """the same tree with its literals replaced by variables the tree does not use yet"""
+    """the same tree with its literals replaced by a variable the tree does not use yet"""
     free = [n for n in NAMES if n not in used(t, set(), set())[0]]
-
-    def go(t):
-        if t[0] == "n":
-            return V(free[0])
-        if t[0] == "v":
-            return t
-        if t[0] == "u":
-            return ("u", t[1], go(t[2]))
-        return ("b", t[1], go(t[2]), go(t[3])) if t[0] == "b" else ("c", t[1], tuple(go(c) for c in t[2])) + t[3:]
-    return go(t)
-
-
-def _mk(op, *kids):
-    return ("u", op, kids[0]) if op in UN else ("b", op, kids[0], kids[1])
-
+    return rebuild(t, lambda l: V(free[0]) if l[0] == "n" else l)
 
 def skeletons(rng):
-    """all ordered pairs (outer, inner) of the 13 operators in every position: (tree, alternative reading or None, label)"""
+    """ALL ordered pairs (outer, inner) of the 13 operators, inner in every operand position of outer:
+    (tree, the other tree with the same token sequence or None, label)"""
     allops = list(UN) + list(BIN)
     for o in allops:
         for i in allops:
             p = _leafs(rng, 3)
-            forms = []
             if o in BIN and i in BIN:
                 forms = [(_mk(o, _mk(i, p[0], p[1]), p[2]), _mk(i, p[0], _mk(o, p[1], p[2]))),
                          (_mk(o, p[0], _mk(i, p[1], p[2])), _mk(i, _mk(o, p[0], p[1]), p[2]))]
@@ -663,23 +521,20 @@ def skeletons(rng):
                 if welltyped(t):
                     yield t, (alt if alt is not None and welltyped(alt) else None), "%s/%s" % (o, i)
 
-
 def _shapes(leaves, ops):
     if len(leaves) == 1:
         yield leaves[0]
-        return
     for s in range(1, len(leaves)):
         for l in _shapes(leaves[:s], ops[:s - 1]):
             for r in _shapes(leaves[s:], ops[s:]):
                 yield ("b", ops[s - 1], l, r)
 
-
-def call_skeletons(rng, arity):
-    allops = list(UN) + list(BIN)
+def call_skeletons(rng):
+    """every function with every operator: the call as an operand, an operator application as an argument"""
     k = 0
-    for f in sorted(arity):
-        n = arity[f]
-        for op in allops:
+    for f in sorted(ARITY):
+        n = ARITY[f]
+        for op in list(UN) + list(BIN):
             p = _leafs(rng, 4)
             k += 1
             if n == 0:
@@ -700,191 +555,132 @@ def call_skeletons(rng, arity):
             yield ("c", f, (_mk(o1, p[0], _mk(o2, p[1], p[2])), p[3])), "%s/%s" % (f, o1)
             yield ("c", f, (p[3], _mk(o1, p[0], _mk(o2, p[1], _mk(".-", p[2]))))), "%s/%s" % (f, o1)
 
-
-TAME = {"acos", "asin", "atanh", "acosh", "log", "log10", "sqrt", "exp", "sinh", "cosh", "tan", "log1p"}
-
-
-def gen(rng, d, want, names, arity):
+def gen(rng, d, want, names, funcs):
+    """random well-typed tree of height <= d; want 'B' (truth-valued: only under ! and or, or at the top) or 'N'"""
     if want == "B" and d > 1:
         if rng.random() < 0.3:
-            return ("u", "!", gen(rng, d - 1, rng.choice("BN"), names, arity))
-        return ("b", rng.choice(["and", "or"]), gen(rng, d - 1, rng.choice("BN"), names, arity), gen(rng, d - 1, rng.choice("BN"), names, arity))
+            return ("u", "!", gen(rng, d - 1, rng.choice("BN"), names, funcs))
+        return ("b", rng.choice(["and", "or"]), gen(rng, d - 1, rng.choice("BN"), names, funcs), gen(rng, d - 1, rng.choice("BN"), names, funcs))
     r = rng.random()
     if d <= 1 or r < 0.12:
-        q = rng.random()
-        if q < 0.65:
-            return V(rng.choice(names))
-        if q < 0.93:
-            s, v = rng.choice(LITS)
-            return ("n", v, s)
-        return ("c", "pi", (), rng.random() < 0.4)
+        q, (s, v) = rng.random(), rng.choice(LITS)
+        return V(rng.choice(names)) if q < 0.65 else (("n", v, s) if q < 0.93 else ("c", "pi", (), rng.random() < 0.4))
     if r < 0.27:
-        return ("u", rng.choice(["~", ".-", ".+"]), gen(rng, d - 1, "N", names, arity))
-    if r < 0.70:
+        return ("u", rng.choice(["~", ".-", ".+"]), gen(rng, d - 1, "N", names, funcs))
+    if r < 0.70 or not funcs:
         op = rng.choice(["^", "**", "*", "/", "%", "+", "-", "*", "+", "-"])
         rd = 1 if (op in ("^", "**") and rng.random() < 0.7) else d - 1
-        return ("b", op, gen(rng, d - 1, "N", names, arity), gen(rng, rd, "N", names, arity))
-    fs = sorted(n for n in arity if arity[n] > 0)
-    if not fs:
-        return gen(rng, d, want, names, arity)
-    f = rng.choice(fs)
+        return ("b", op, gen(rng, d - 1, "N", names, funcs), gen(rng, rd, "N", names, funcs))
+    f = rng.choice(funcs)
     ad = 1 if (f in TAME and rng.random() < 0.5) else d - 1
-    return ("c", f, tuple(gen(rng, ad if j == 0 else d - 1, "N", names, arity) for j in range(arity[f])))
-
+    return ("c", f, tuple(gen(rng, ad if j == 0 else d - 1, "N", names, funcs) for j in range(ARITY[f])))
 
 # ------------------------------------------------------------------ phases
 def _elements(R):
-    """every registered element on its own over a grid; relational indicators in sums"""
+    """every registered element on its own over a grid (scalars, arrays, equal arguments); the relational indicators in sums"""
+    reg = "import fuzzylite as fl; fl.settings.factory_manager.function.objects.get(%r)"
     for n in sorted(R.reg):
         if n not in UN and n not in BIN and n not in FUNCS:
             R.cases += 1
-            R.fail("undocumented-element:" + n, "one of the 13 operators / 34 documented functions", "registered element %r (%s)" % (n, R.reg[n].description),
-                   "import fuzzylite as fl; fl.settings.factory_manager.function.objects[%r]" % n)
+            R.fail("undocumented-element:" + n, "one of the 13 operators / 34 documented functions", "registered element %r (%s)" % (n, R.reg[n].description), reg % n)
+    x, k, a, o = V("x"), V("k"), V("a"), V("o")
     for n in sorted(set(UN) | set(BIN) | set(FUNCS)):
         if n not in R.reg:
             R.cases += 1
-            R.fail("missing-element:" + n, "registered operator/function %r" % n, "not registered", "import fuzzylite as fl; %r in fl.settings.factory_manager.function.objects" % n)
             R.bad[n] = "missing-element:" + n
+            R.fail(R.bad[n], "registered operator/function %r" % n, "not registered", reg % n)
             continue
-        x, k, a, o = V("x"), V("k"), V("a"), V("o")
-        if n in UN:
-            trees = [("u", n, x), ("u", n, k)]
-        elif n in BIN:
-            trees = [("b", n, x, k), ("b", n, a, x)]
-        elif FUNCS[n][0] == 0:
-            trees = [("c", n, (), False), ("c", n, (), True)]
-        elif FUNCS[n][0] == 1:
-            trees = [("c", n, (x,)), ("c", n, (o,))]
-        else:
-            trees = [("c", n, (x, k)), ("c", n, (a, x))]
+        trees = [_mk(n, x, k), _mk(n, a, x)] if n not in FUNCS else [[("c", n, (), False), ("c", n, (), True)], [("c", n, (x,)), ("c", n, (o,))],
+                                                                        [("c", n, (x, k)), ("c", n, (a, x))]][ARITY[n]]
+        before = dict(R.skipped)
         for t in trees:
-            before = dict(R.skipped)
+            vs = sorted(used(t, set(), set())[0])
             for rep in range(3):
-                envs = R.find_envs([t], want=5, tries=200)
+                envs = R.find_envs(t, want=5, tries=200)
                 assert envs, ("no tame valuation for element", n)
-                vs = sorted(used(t, set(), set())[0])
                 if len(vs) == 2:                                   # equal arguments (boundary of the relational functions)
-                    v = R.rng.choice(POOL)
-                    envs = R.find_envs([t], want=1, tries=1, fixed={vs[0]: v, vs[1]: v}) + envs
+                    envs = R.find_envs(t, want=1, tries=1, fixed=dict.fromkeys(vs, R.rng.choice(POOL))) + envs
                 R.check_tree(t, envs, "value:function:" + n, "not-elementwise:" + n, styles=("min",), do_ill=False)
-            if R.skipped != before:
-                R.bad[n] = [c for c in R.skipped if R.skipped[c] != before.get(c, 0)][0]
         if n in REL:
             c1, c2 = ("c", n, (x, k)), ("c", n, (a, o))
-            cls = "indicator-not-numeric:" + n
-            before = dict(R.skipped)
+            pairs = [(p, q) for p in POOL for q in POOL if REL[n](p, q)]
             for t in (("b", "+", c1, c2), ("b", "-", c1, c2), ("b", "*", ("n", 2.0, "2"), c1), ("u", ".-", c1), ("b", "+", ("b", "+", c1, c2), c1)):
-                pairs = [(p, q) for p in POOL for q in POOL if REL[n](p, q)]
                 both = [dict({v: R.rng.choice(POOL) for v in NAMES}, **dict(zip("xkao", R.rng.choice(pairs) + R.rng.choice(pairs)))) for _ in range(3)]
-                envs = both + R.find_envs([t], want=2)
-                R.check_tree(t, envs, cls, cls, styles=("min",), do_ill=False, postfix=False)
-            if R.skipped != before and n not in R.bad:
-                R.bad[n] = cls
-
+                R.check_tree(t, both + R.find_envs(t, want=2), "indicator-not-numeric:" + n, "indicator-not-numeric:" + n, styles=("min",), do_ill=False, postfix=False)
+        for c in [c for c in R.skipped if R.skipped[c] != before.get(c, 0)][:1]:
+            R.bad[n] = c                                           # later failures of trees using n are attributed to this class
 
 def _extras(R):
-    """special surface cases: chains of prefix operators, literal spellings, ill-formed texts beyond the listed kinds"""
-    np, fl = R.np, R.fl
-    for text, tree in (("~ .- x", ("u", "~", ("u", ".-", V("x")))), ("~ .+ x", ("u", "~", ("u", ".+", V("x")))), ("~.-.-x", ("u", "~", ("u", ".-", ("u", ".-", V("x"))))),
-                       ("2 ^ ~ .- x", ("b", "^", ("n", 2.0, "2"), ("u", "~", ("u", ".-", V("x")))))):
+    """special surface cases: chains of prefix operators, literal spellings, texts that are not infix at all"""
+    fl = R.fl
+    call = "import fuzzylite as fl; print(fl.Function.create('f', %r).membership(1.5))"
+    probe = lambda text: (lambda r: r[1] or r[0])(_try(lambda: fl.Function.create("f", text).membership(1.5)))  # noqa
+    chains = ("~ .- x", "~ .+ x", "~.-.-x", "2 ^ ~ .- x")          # a prefix operator applied to a looser-binding prefix operator
+    for text, want, cls in [(t, ev(_ref_parse(t), {"x": 1.5}, [0.0])[0], "rejected-wellformed:unary-chain") for t in chains] + [
+            ("x + .5", 2.0, "literal:leading-dot"), ("x * 1e3", 1500.0, "literal:exponent"), ("x + 1e-3", 1.501, "literal:signed-exponent"),
+            ("x * 2.5e+1", 37.5, "literal:signed-exponent")]:
         R.cases += 1
-        assert norm(_ref_parse(text, R.arity)) == norm(tree)
-        want = ev(tree, {"x": 1.5}, [0.0])[0]
-        try:
-            obs = fl.Function.create("f", text).membership(1.5)
-        except Exception as ex:  # noqa
-            obs = "%s: %s" % (type(ex).__name__, ex)
+        obs = probe(text)
         if isinstance(obs, str) or not R.close(obs, want, 1.0):
-            R.fail("rejected-wellformed:unary-chain", want, obs, "import fuzzylite as fl; print(fl.Function.create('f', %r).membership(1.5))" % text)
-    for text, want, cls in (("x + .5", 2.0, "literal:leading-dot"), ("x * 1e3", 1500.0, "literal:exponent"), ("x + 1e-3", 1.501, "literal:signed-exponent"),
-                            ("x * 2.5e+1", 37.5, "literal:signed-exponent")):
-        R.cases += 1
-        try:
-            obs = fl.Function.create("f", text).membership(1.5)
-        except Exception as ex:  # noqa
-            obs = "%s: %s" % (type(ex).__name__, ex)
-        if isinstance(obs, str) or not R.close(obs, want, 1.0):
-            R.fail(cls, want, obs, "import fuzzylite as fl; print(fl.Function.create('f', %r).membership(1.5))" % text)
-    # a constant that needs more digits than Op.str prints: the postfix text no longer denotes the same function
-    R.cases += 1
+            R.fail(cls, want, obs, call % text)
+    R.cases += 1        # a constant with more digits than Op.str prints: the postfix text no longer denotes the same function
     t = fl.Function.create("f", "x * 0.12345")
     obs = R.PF.parse(t.root.postfix()).evaluate({"x": 1000.0})
     if not R.close(obs, 123.45, 1.0):
         R.fail("postfix:literal-precision", 123.45, "%r from postfix %r" % (obs, t.root.postfix()),
                "import fuzzylite as fl; print(fl.Function.create('f', 'x * 0.12345').root.postfix())  # reparsed and evaluated at x=1000")
-    # texts with the right NUMBER of operands whose arrangement is not infix (beyond the kinds listed in C17): one class
-    acc = []
+    acc = []            # the right NUMBER of operands, but the arrangement is not infix (beyond the kinds listed in C17): one class
     for text in ("max ( x 2 )", "max ( ( x , 2 ) )", "x 2 +", "+ x 2", "sin x", "x ( 2 * )", "( x , 2 ) +"):
         R.cases += 1
-        try:
-            _ref_parse(text, R.arity)
-            raise AssertionError(("well-formed for the reference parser", text))
-        except _Ill:
-            pass
-        try:
-            acc.append("%r -> postfix %r" % (text, fl.Function.create("f", text).root.postfix()))
-        except Exception as ex:  # noqa
-            if type(ex).__name__ not in REJECTIONS:
-                R.fail("illformed-internal-error:" + type(ex).__name__, "rejected with SyntaxError", "%s: %s" % (type(ex).__name__, ex), "import fuzzylite as fl; fl.Function.create('f', %r)" % text)
+        assert _refuses(text), ("well-formed for the reference parser", text)
+        t, err = _try(fl.Function.create, "f", text)
+        if not err:
+            acc.append("%r -> postfix %r" % (text, t.root.postfix()))
+        elif err.split(":")[0] not in REJECTIONS:
+            R.fail("illformed-internal-error:" + err.split(":")[0], "SyntaxError", err, "import fuzzylite as fl; fl.Function.create('f', %r)" % text)
     if acc:
-        R.fail("accepted-illformed:arrangement", "SyntaxError when loaded (not an infix formula)", "; ".join(acc), "import fuzzylite as fl; fl.Function.create('f', %r)" % acc[0].split(" -> ")[0][1:-1])
+        R.fail("accepted-illformed:arrangement", "SyntaxError when loaded (not an infix formula)", "; ".join(acc), "import fuzzylite as fl; fl.Function.create('f', 'max ( x 2 )')")
     R.check_ill(None, variants=[("empty-formula", []), ("empty-parentheses", ["(", ")"]), ("bare-minus", ["-", "x"])])
 
-
 def _resolution(R):
-    """variables resolve to the engine's CURRENT values, the term's own variables and x; clashes are rejected"""
+    """variables resolve to the engine's CURRENT values, the term's own variables and x; clashes are rejected as documented"""
     np, fl = R.np, R.fl
     text = "a + 10 * o + 100 * k + 1000 * x"
-    tree = _ref_parse(text, R.arity)
     e = fl.Engine("e", input_variables=[fl.InputVariable("a")], output_variables=[fl.OutputVariable("o")])
     term = fl.Function("f", text, engine=e, variables={"k": 1.0}, load=True)
     hist = []
-    for step, (av, ov, kv, xv) in enumerate([(1.0, 2.0, 3.0, 4.0), (5.0, 2.0, 3.0, 4.0), (5.0, 6.0, 3.0, 4.0), (5.0, 6.0, 7.0, 4.0), (5.0, 6.0, 7.0, 8.0),
-                                             (np.array([1.0, 2.0, 3.0, 4.0]), 2.0, np.array([0.5, 1.5, 2.5, 3.5]), 1.0)]):
+    for av, ov, kv, xv in [(1.0, 2.0, 3.0, 4.0), (5.0, 2.0, 3.0, 4.0), (5.0, 6.0, 3.0, 4.0), (5.0, 6.0, 7.0, 4.0), (5.0, 6.0, 7.0, 8.0),
+                           (np.array([1.0, 2.0, 3.0, 4.0]), 2.0, np.array([0.5, 1.5, 2.5, 3.5]), 1.0)]:
         R.cases += 1
-        e.input_variable("a").value = av
-        e.output_variable("o").value = ov
-        term.variables["k"] = kv
+        e.input_variable("a").value, e.output_variable("o").value, term.variables["k"] = av, ov, kv
         hist.append((av, ov, kv, xv))
         want = av + 10 * ov + 100 * kv + 1000 * xv
-        try:
-            obs = term.membership(xv)
-            ok = np.shape(obs) == np.shape(want) and bool(np.all(np.abs(np.asarray(obs, dtype=float) - want) <= 1e-9 * np.abs(want)))
-        except Exception as ex:  # noqa
-            obs, ok = "%s: %s" % (type(ex).__name__, ex), False
-        if not ok:
-            R.fail("resolution:current-values", want, obs, "Function('f', %r, engine=e, variables={'k': ..}) loaded once; then (a, o, k, x) set in turn to %s and membership(x) called after each" % (text, hist))
-
-    def raises(fn):
-        try:
-            fn()
-        except ValueError:
-            return "ValueError"
-        except Exception as ex:  # noqa
-            return type(ex).__name__
-        return None
-    e2 = fl.Engine("e", input_variables=[fl.InputVariable("x")], output_variables=[fl.OutputVariable("o")])
-    checks = [("clash-own-vs-engine", lambda: fl.Function("f", "a + k", engine=e, variables={"a": 1.0, "k": 2.0}, load=True).membership(1.0), "ValueError",
-               "fl.Function('f', 'a + k', engine=<engine with input a>, variables={'a': 1.0, 'k': 2.0}, load=True).membership(1.0)"),
-              ("clash-own-x", lambda: fl.Function("f", "x + 1", variables={"x": 1.0}, load=True).membership(1.0), "ValueError",
-               "fl.Function('f', 'x + 1', variables={'x': 1.0}, load=True).membership(1.0)"),
-              ("clash-engine-x", lambda: fl.Function("f", "x + 1", engine=e2, load=True).membership(1.0), "ValueError",
-               "fl.Function('f', 'x + 1', engine=<engine with input variable named x>, load=True).membership(1.0)"),
-              ("unknown-variable", lambda: fl.Function.create("f", "x + zz", e).membership(1.0), "ValueError", "fl.Function.create('f', 'x + zz', e).membership(1.0)"),
-              ("not-loaded", lambda: fl.Function("f", "x + 1").membership(1.0), "RuntimeError", "fl.Function('f', 'x + 1').membership(1.0)")]
-    for name, fn, want, call in checks:
+        obs, err = _try(term.membership, xv)
+        if err or np.shape(obs) != np.shape(want) or not np.all(np.abs(np.asarray(obs, dtype=float) - want) <= 1e-9 * np.abs(want)):
+            R.fail("resolution:current-values", want, err or obs, "fl.Function('f', %r, engine=e, variables={'k': ..}, load=True) loaded once; then (a, o, k, x) set in turn to %s, "
+                   "membership(x) after each" % (text, hist))
+    env = {"fl": fl, "e": e, "e2": fl.Engine("e", input_variables=[fl.InputVariable("x")], output_variables=[fl.OutputVariable("o")])}
+    for name, want, code in [("clash-own-vs-engine", "ValueError", "fl.Function('f', 'a + k', engine=e, variables={'a': 1.0, 'k': 2.0}, load=True).membership(1.0)"),
+                             ("clash-own-x", "ValueError", "fl.Function('f', 'x + 1', variables={'x': 1.0}, load=True).membership(1.0)"),
+                             ("clash-engine-x", "ValueError", "fl.Function('f', 'x + 1', engine=e2, load=True).membership(1.0)"),
+                             ("unknown-variable", "ValueError", "fl.Function.create('f', 'x + zz', e).membership(1.0)"),
+                             ("not-loaded", "RuntimeError", "fl.Function('f', 'x + 1').membership(1.0)")]:
         R.cases += 1
-        got = raises(fn)
+        got = (_try(eval, code, env)[1] or "no exception").split(":")[0]
         if got != want:
-            R.fail("resolution:" + name, want + " as documented", got or "no exception", "import fuzzylite as fl; " + call)
+            R.fail("resolution:" + name, want + " as documented", got, "import fuzzylite as fl; e = <engine with input a, output o>; e2 = <engine with an input named x>; " + code)
 
 
 def replay_formulas(fl, FA, vals=None, seed=0, budget=200, depth=None, arrays=True, skip_classes=(), only_class=None, **kw):
-    """C17: generated formulas (all operator pairs systematically, calls of every registered function, random trees to
-    depth `depth` (default 5)) printed with minimal/full/redundant parentheses and spacing variants, evaluated by the real
-    Function term on scalars and arrays and compared with the reference value of the TREE; postfix round trip; variable
-    resolution; ill-formed variants must be rejected at load.  The systematic part is fixed; `budget` = number of random
-    trees (from budget >= 2000 also all triples of binary operators in all five bracketings)."""
+    """C17 on generated formulas.  Fixed systematic part: every element on its own, variable resolution, special surface cases,
+    ALL ordered operator pairs in both nestings (class `value:<outer>/<inner>`), every function x every operator; then
+    3 x `budget` random well-typed trees of height <= `depth` (default 5) (class `value:random`); from budget >= 2000 (or
+    triples=True) also all triples of binary operators in all five bracketings.  Each tree: minimal / full / redundant
+    parentheses x spacing variants, scalar and array valuations (membership and evaluate), postfix round trip, ill-formed
+    variants of its text.  Other classes: value:function:<name>, indicator-not-numeric:<name>, not-elementwise:<name>,
+    undocumented-element:<name>, missing-element:<name>, crash:<Type>@load|membership|evaluate, spacing:<mode>,
+    postfix:text|reparse|literal-precision, resolution:<what>, rejected-wellformed:unary-chain, literal:<form>,
+    accepted-illformed:<kind>, illformed-internal-error:<Type>."""
     import warnings
     import numpy as np
     R = _Run(fl, seed, arrays, skip_classes, only_class)
@@ -897,119 +693,100 @@ def replay_formulas(fl, FA, vals=None, seed=0, budget=200, depth=None, arrays=Tr
             _resolution(R)
             _extras(R)
             for t, alt, label in skeletons(R.rng):
-                envs = R.find_envs([t], alt)
-                if not envs:                                   # an unlucky literal (e.g. a zero divisor): use variables only
+                envs = R.find_envs(t, alt)
+                if not R.n_good and t != _delit(t):             # an unlucky literal (zero divisor, neutral element): variables only
                     t, alt = _delit(t), (_delit(alt) if alt else None)
-                    envs = R.find_envs([t], alt, tries=2000)
+                    envs = R.find_envs(t, alt, tries=2000)
                 assert envs, ("no tame valuation for skeleton", label, t)
                 R.check_tree(t, envs, "value:" + label)
-            for t, label in call_skeletons(R.rng, R.arity):
-                envs = R.find_envs([t])
+            for t, label in call_skeletons(R.rng):
+                envs = R.find_envs(t)
+                if not envs:
+                    t = _delit(t)
+                    envs = R.find_envs(t, tries=2000)
                 if envs:
                     R.check_tree(t, envs, "value:" + label, styles=("min", R.rng.choice(["full", "red"])))
-            if budget >= 2000 or (depth and kw.get("triples")):
-                ops = list(BIN)
-                for o1 in ops:
-                    for o2 in ops:
-                        for o3 in ops:
+            if budget >= 2000 or kw.get("triples"):
+                for o1 in BIN:
+                    for o2 in BIN:
+                        for o3 in BIN:
                             for t in _shapes(_leafs(R.rng, 4)[:3] + [V(R.rng.choice(NAMES))], [o1, o2, o3]):
-                                if welltyped(t):
-                                    envs = R.find_envs([t], tries=60)
-                                    if envs:
-                                        R.check_tree(t, envs, "value:%s/%s" % (t[1], t[2][1] if t[2][0] == "b" else t[3][1]), styles=("min",), do_ill=False, postfix=False)
+                                envs = R.find_envs(t, tries=60) if welltyped(t) else None
+                                if envs:
+                                    R.check_tree(t, envs, "value:%s/%s" % (t[1], t[2][1] if t[2][0] == "b" else t[3][1]), styles=("min",), do_ill=False, postfix=False)
             made = tries = 0
-            while made < budget and tries < budget * 20:
+            funcs = sorted(n for n in ARITY if ARITY[n] > 0)
+            while made < 3 * budget and tries < 60 * budget:
                 tries += 1
                 names = R.rng.sample(list(NAMES), R.rng.randint(1, 3))
-                ops_only = R.rng.random() < 0.4
-                t = gen(R.rng, R.rng.randint(2, depth), "B" if R.rng.random() < 0.2 else "N", names, {"pi": 0} if ops_only else R.arity)
-                if height(t) < 2:
-                    continue
-                envs = R.find_envs([t], tries=40)
-                if not envs:
-                    continue
-                made += 1
-                R.check_tree(t, envs, "value:random")
+                t = gen(R.rng, R.rng.randint(2, depth), "B" if R.rng.random() < 0.2 else "N", names, [] if R.rng.random() < 0.4 else funcs)
+                envs = R.find_envs(t, tries=40) if height(t) >= 2 else None
+                if envs:
+                    made += 1
+                    R.check_tree(t, envs, "value:random")
     except _Fail as f:
         return f.args[0]
     finally:
         fl.settings.factory_manager, fl.settings.decimals, fl.settings.float_type = saved
     out = {"failed": False, "cases": R.cases, "distinct": len(R.distinct), "rejection_types": R.rejections}
-    if R.skipped:
-        out["skipped"] = R.skipped
-    if R.ignored:
-        out["ignored"] = R.ignored
+    out.update({k: v for k, v in (("skipped", R.skipped), ("ignored", R.ignored)) if v})
     return out
 
 
 def replay_table(fl, FA, vals=None, seed=0, budget=200, skip_classes=(), only_class=None, **kw):
-    """the REGISTERED table against the oracle table: relative precedence (order and ties), associativity direction, arity,
-    element type of each of the 13 operators; arity of each function = what its method takes (and = documented arity)"""
+    """the REGISTERED table against the oracle table: relative precedence (order and ties), associativity direction, arity and
+    element type of each of the 13 operators; arity of each function = documented arity = what its method takes.
+    Class `table:<name>` (the element involved in most disagreements first)."""
     import inspect
     import numpy as np
     reg = fl.settings.factory_manager.function.objects
-    skip, skipped, cases = set(skip_classes or ()), {}, 0
-    problems = []
-
-    def bad(name, expected, observed):
-        cls = "table:" + name
-        if cls in skip or (only_class and cls != only_class):
-            skipped[cls] = skipped.get(cls, 0) + 1
-        else:
-            problems.append((cls, expected, observed))
+    sg = lambda v: (v > 0) - (v < 0)  # noqa
     table = dict([(n, (lv, "R", 1)) for n, lv in UN.items()] + [(n, (lv, a, 2)) for n, (lv, a) in BIN.items()])
-    for n in sorted(set(reg) - set(table) - set(FUNCS)):
-        bad(n, "a documented element", "registered element %r" % n)
+    problems = [(n, "a documented element", "registered element %r" % n) for n in sorted(set(reg) - set(table) - set(FUNCS))]
+    cases = 0
     for n, (lv, asc, ar) in sorted(table.items()):
         cases += 1
         e = reg.get(n)
         if e is None or not e.is_operator():
-            bad(n, "registered operator", "missing" if e is None else "type %r" % (e.type,))
+            problems.append((n, "registered operator", "missing" if e is None else "type %r" % (e.type,)))
             continue
         if e.arity != ar:
-            bad(n, "arity %d" % ar, "arity %r" % (e.arity,))
+            problems.append((n, "arity %d" % ar, "arity %r" % (e.arity,)))
         if (e.associativity > 0) != (asc == "R") or e.associativity == 0:
-            bad(n, "%s-associative (associativity %s 0)" % ("right" if asc == "R" else "left", ">" if asc == "R" else "<"), "associativity %r" % (e.associativity,))
+            problems.append((n, "%s-associative (associativity %s 0)" % (("right", ">") if asc == "R" else ("left", "<")), "associativity %r" % (e.associativity,)))
         for n2, (lv2, _, _) in sorted(table.items()):
-            e2 = reg.get(n2)
-            if e2 is not None and n < n2:
-                cases += 1
-                sg = lambda v: (v > 0) - (v < 0)  # noqa
-                if sg(e.precedence - e2.precedence) != sg(lv - lv2):
-                    bad(n if True else n2, "%s binds %s %s" % (n, {1: "tighter than", 0: "as tight as", -1: "looser than"}[sg(lv - lv2)], n2),
-                        "precedence %r vs %r" % (e.precedence, e2.precedence))
-    for n, (ar, _) in sorted(FUNCS.items()):
+            cases += 1
+            if n2 != n and n2 in reg and sg(e.precedence - reg[n2].precedence) != sg(lv - lv2):
+                problems.append((n, "%s binds %s %s" % (n, {1: "tighter than", 0: "as tight as", -1: "looser than"}[sg(lv - lv2)], n2),
+                                 "precedence %r vs %r" % (e.precedence, reg[n2].precedence)))
+    for n, ar in sorted(ARITY.items()):
         cases += 1
         e = reg.get(n)
         if e is None or not e.is_function():
-            bad(n, "registered function", "missing" if e is None else "type %r" % (e.type,))
+            problems.append((n, "registered function", "missing" if e is None else "type %r" % (e.type,)))
             continue
         if e.arity != ar:
-            bad(n, "documented arity %d" % ar, "arity %r" % (e.arity,))
-        m = e.method
+            problems.append((n, "documented arity %d" % ar, "arity %r" % (e.arity,)))
+        m, lo, hi = e.method, None, None
+        sig = None if isinstance(m, np.ufunc) else _try(inspect.signature, m)[0]   # none for builtins (variadic min/max): only probed
         if isinstance(m, np.ufunc):
             lo = hi = m.nin
-        else:
-            try:
-                ps = list(inspect.signature(m).parameters.values())
-                pos = [p for p in ps if p.kind in (p.POSITIONAL_ONLY, p.POSITIONAL_OR_KEYWORD)]
-                lo = sum(1 for p in pos if p.default is p.empty)
-                hi = 99 if any(p.kind == p.VAR_POSITIONAL for p in ps) else len(pos)
-            except (TypeError, ValueError):
-                lo = hi = None
+        elif sig is not None:
+            pos = [p for p in sig.parameters.values() if p.kind in (p.POSITIONAL_ONLY, p.POSITIONAL_OR_KEYWORD)]
+            lo = sum(1 for p in pos if p.default is p.empty)
+            hi = 99 if any(p.kind == p.VAR_POSITIONAL for p in sig.parameters.values()) else len(pos)
         if lo is not None and not (lo <= e.arity <= hi):
-            bad(n, "arity = number of parameters of its method (%s..%s)" % (lo, hi), "arity %r" % (e.arity,))
-        try:
-            r = m(*[0.5, 0.25][:e.arity])
-            if np.shape(r) != ():
-                bad(n, "scalar result for %d scalar arguments" % e.arity, repr(r))
-        except Exception as ex:  # noqa
-            bad(n, "method callable with %d arguments" % e.arity, "%s: %s" % (type(ex).__name__, ex))
-    if problems:
-        cls, expected, observed = problems[0]
-        return {"failed": True, "class": cls, "expected": expected, "observed": observed + (" (+%d more: %s)" % (len(problems) - 1, sorted({p[0] for p in problems[1:]})[:8]) if len(problems) > 1 else ""),
-                "call": "import fuzzylite as fl; e = fl.settings.factory_manager.function.objects[%r]; print(e.arity, e.precedence, e.associativity, e.method)" % cls.split(":", 1)[1], "cases": cases}
-    out = {"failed": False, "cases": cases, "distinct": len(table) + len(FUNCS)}
-    if skipped:
-        out["skipped"] = skipped
-    return out
+            problems.append((n, "arity = number of parameters of its method (%s..%s)" % (lo, hi), "arity %r" % (e.arity,)))
+        r, err = _try(m, *[0.5, 0.25][:e.arity])
+        if err or np.shape(r) != ():
+            problems.append((n, "method takes %d scalar arguments and returns a scalar" % e.arity, err or repr(r)))
+    count = {n: sum(1 for p in problems if p[0] == n) for n, _, _ in problems}
+    skipped = {}
+    for n, expd, obs in sorted(problems, key=lambda p: (-count[p[0]], p[0])):
+        if "table:" + n in set(skip_classes or ()) or (only_class and "table:" + n != only_class):
+            skipped["table:" + n] = skipped.get("table:" + n, 0) + 1
+            continue
+        return {"failed": True, "class": "table:" + n, "expected": expd, "cases": cases,
+                "observed": "%s (%d disagreements involve %s; all: %s)" % (obs, count[n], n, sorted(count.items())[:12]),
+                "call": "import fuzzylite as fl; e = fl.settings.factory_manager.function.objects[%r]; print(e.arity, e.precedence, e.associativity, e.method)" % n}
+    return dict({"failed": False, "cases": cases, "distinct": len(table) + len(FUNCS)}, **({"skipped": skipped} if skipped else {}))
